@@ -1,6 +1,6 @@
 (* CompileProofs.v — theorems about the compiler model. *)
 From Coq Require Import ZArith NArith List Bool Lia ZifyBool ZifyNat ZifyN Floats.
-From EvyV Require Import Base Bytecode BytecodeProofs SymTab Vm VmProofs Compile.
+From EvyV Require Import Base Bytecode BytecodeProofs SymTab Vm VmProofs Compile CompileSem.
 Require Import EvyV.Gen.Opcodes.
 Import ListNotations.
 Open Scope Z_scope.
@@ -198,18 +198,6 @@ Proof.
 Qed.
 
 (* the fragment *)
-Fixpoint efrag (e : expr) : bool :=
-  match e with
-  | ENum _ | EBool _ | EStr _ | EVar _ => true
-  | EGroup e1 => efrag e1
-  | EUn UMinus e1 | EUn UBang e1 => efrag e1
-  | EBin _ _ _ l r | EIndex l r => efrag l && efrag r
-  | EArr l => efrag_list l
-  | _ => false
-  end
-with efrag_list (l : elist) : bool :=
-  match l with ENil => true | ECons e t => efrag e && efrag_list t end.
-
 (* every name the symbol table resolves is a global whose slot fits 16 bits,
    and the VM's global slots hold the environment *)
 Definition sym_static (sym : symtab) : Prop :=
